@@ -24,8 +24,8 @@ from sim.harness import draw_knobs, Discard   # noqa: F401
 
 ID = "C20"
 LEVEL = "exploration"
-RUNS = {"quick": 6000, "thorough": 120000}
-WALL_CAP = {"quick": 120, "thorough": 3000}
+RUNS = {"quick": 3000, "thorough": 100000}
+WALL_CAP = {"quick": 90, "thorough": 900}
 RULE = ("one case = one credits configuration (price, 1-3 coin switches with values/audit classes, 1-3 pricing "
         "tiers, max_credits, full/fractional expiry, persist time, free play at boot, balls per game, max players) "
         "x one generated history of 6-45 operations (coins, coin bursts, service credits, credit events, start "
@@ -323,6 +323,7 @@ class World:
         self.last_coin_iter = None
         self.ever_free_boot = False
         self.disk = {}
+        self.last_upg = 0
         self.approvals = []      # free-play flag at the time each pending player add was approved
 
     # -- configuration ------------------------------------------------------------------------
@@ -354,7 +355,13 @@ class World:
         return u if u else 0
 
     def upg(self):
-        return self.cr.credit_units_per_game
+        """Units per game of the SUT.  After a boot in free play the SUT has not calculated it yet: the
+        balance it carries was written with the value of the previous boot."""
+        u = self.cr.credit_units_per_game
+        if u:
+            self.last_upg = u
+            return u
+        return self.last_upg
 
     def sut_free(self):
         return bool(self.m.settings.get_setting_value("free_play"))
@@ -497,11 +504,22 @@ class World:
                     ctx.probe("expiry_during_game")   # relaxation: the statement does not say when expiries happen
                 if kind == "full":
                     L.S = L.S | {F(0)}
+                    self.note_clear()
         if not ok:
             self.V("unexplained_change", "spontaneous",
                    "credit_units changed %s -> %s at %.6f outside any operation; balance was %s credits, expiry "
                    "deadlines full=%s frac=%s" % (prev, new, t, L.B, sorted_dl(L.dl["full"]), sorted_dl(L.dl["frac"])))
         L.B = b_new
+
+    def note_clear(self):
+        for a in self.approvals:
+            a["cleared"] = True
+            a["gain"] = False
+
+    def note_gain(self):
+        for a in self.approvals:
+            if a["cleared"]:
+                a["gain"] = True
 
     def h_pre(self, _k=None, **kwargs):
         self.ctx.log("pre", _k, t=self.sim.now)
@@ -525,7 +543,7 @@ class World:
             raise AssertionError("request bracket mismatch")
         r["approved"] = True
         if _k == "player_add_request":
-            self.approvals.append(self.L.free)
+            self.approvals.append({"free": self.L.free, "cleared": False, "gain": False})
         self.ctx.probe("start_accepted" if _k == "request_to_start_game" else "player_add_accepted")
         if not r["expect"]:
             self.V("approved_without_price", _k,
@@ -578,8 +596,8 @@ class World:
         self.players += 1
         if self.players >= 2:
             self.ctx.probe("second_player")
-        approved_free = self.approvals.pop(0) if self.approvals else L.free
-        if approved_free and not L.free:
+        appr = self.approvals.pop(0) if self.approvals else {"free": L.free, "cleared": False, "gain": False}
+        if appr["free"] and not L.free:
             # relaxation: the request was granted in free play and the operator switched to credit play
             # before the player was added: charged or not, both accepted
             self.ctx.probe("approved_free_added_credit")
@@ -594,6 +612,15 @@ class World:
             L.B = self.expect_balance({L.B}, "deduction", "free play", "player added in free play")
             return
         self.ctx.probe("player_deducted")
+        if L.B == 0 and appr["cleared"] and not appr["gain"]:
+            # relaxation (linearisable): the request was granted with a full price available, then all credits
+            # were cleared (slam tilt / reset / expiry) before the player was charged; the end state equals
+            # "charge, then clear"
+            self.ctx.probe("cleared_between_approval_and_add")
+            L.B = self.expect_balance({F(0)}, "deduction", "after clear", "player added after a clear")
+            L.paid += 1
+            self.check_paid()
+            return
         if L.B < 1:
             self.V("start_without_price", "player added below one credit",
                    "player %d added in credit play with only %s credits available" % (self.players, L.B))
@@ -619,6 +646,8 @@ class World:
         if credited or (L.free and self.read_award(akey) != L.awards.get(akey, 0)):
             L.awards[akey] = L.awards.get(akey, 0) + int(n)
             self.touch_deadlines(now, definite=False)
+        if obs > L.B:
+            self.note_gain()
         L.B = obs
         self.check_award(akey)
 
@@ -634,6 +663,7 @@ class World:
         allowed = {F(0)} | ({L.B} if L.free else set())
         L.B = self.expect_balance(allowed, "clear", probe, probe)
         L.S = L.S | {F(0)}
+        self.note_clear()
 
     def close_slam_tilt(self, frame):
         self.close_clear(frame, "slam_tilt")
@@ -765,11 +795,11 @@ class World:
         L = self.L
         # an expiry that found nothing to clear is invisible; it may still have restarted the tier count
         for kind in ("full", "frac"):
+            if kind == "full" and any(c is not None and c <= t_nom + TOL for c in L.dl[kind]):
+                L.S = L.S | {F(0)}     # (a timer due at this very instant may already have run: tie)
             passed = {c for c in L.dl[kind] if c is not None and c < t_nom - TOL}
             if not passed:
                 continue
-            if kind == "full":
-                L.S = L.S | {F(0)}
             has = L.B > 0 if kind == "full" else (L.B % 1) != 0
             if not has:
                 L.dl[kind] = (L.dl[kind] - passed) | {None}
@@ -859,6 +889,8 @@ class World:
                 ctx.probe("coin_credited")
             if obs % 1:
                 ctx.probe("fractional_balance")
+        if obs > L.B:
+            self.note_gain()
         L.B = obs
         for k in keys:
             L.coin_audit[k] = [L.coin_audit[k][0] + 1, L.coin_audit[k][1] + v]
@@ -889,6 +921,8 @@ class World:
             L.awards[akey] = L.awards.get(akey, 0) + 1
             # relaxation: whether a service credit restarts the expiry timers is not specified
             self.touch_deadlines(now, definite=False)
+        if obs > L.B:
+            self.note_gain()
         L.B = obs
         self.check_award(akey)
         self.check_strings()
@@ -1067,6 +1101,15 @@ class World:
             self.sim.run(max(self.next_t - self.sim.now, 0.0) + 0.02)
         # settle: let a pending game start / player add / expiry due now finish
         self.sim.run_quiet(2.0)
+        g = self.m.game
+        if g is not None and not g.player_list and L.game_active:
+            # observation only (game lifecycle is C06): the start request was granted but the first
+            # player's own player_add_request was denied - the game mode runs without a player
+            self.ctx.probe("game_without_player")
+            self.ctx.log("game_without_player", t=self.sim.now)
+            import os
+            if os.environ.get("C20_REPORT_GAME_WITHOUT_PLAYER"):     # debugging aid: show such a history
+                self.V("game_without_player", "observation", "game mode runs without any player")
         self.check_sync("end")
         self.check_liveness(self.sim.now)
         self.check_strings()
